@@ -149,6 +149,33 @@ def gen_condmany(rng, pid):
     lines.append("end")
     return "\n".join(lines)
 
+def gen_condorder(rng, pid):
+    """many waiters of FEW priorities on one condition, arriving at different times; before the signal some leave
+    (interrupt, timeout, cancel, remove) and some change priority, so the waiting list is reshuffled internally"""
+    nw = rng.randint(3, 9)
+    pool = rng.choice([[0], [0, 0, 1], [0, 1], [0, 0, 0, 2, 5]])
+    lines = ["prog %d" % pid, "cap res=1 pool=1 buf=2 oq=1 pq=1 bufunit=0"]
+    arrive = list(range(nw)); rng.shuffle(arrive)
+    if rng.random() < 0.3: arrive = [a // 2 for a in arrive]
+    tmax = max(arrive) + 1
+    pred = rng.choice([0, 0, 2])
+    for p in range(1, nw + 1):
+        code = []
+        if rng.random() < 0.15: code.append("tadd %d -5" % (tmax + rng.randint(0, 1) - arrive[p - 1]))
+        if arrive[p - 1] > 0: code.append("hold %d" % arrive[p - 1])
+        code += ["cwait %d" % (pred if rng.random() < 0.85 else 1), "hold 1"]
+        lines.append("proc %d %d 1 : %s" % (p, rng.choice(pool), " ; ".join(code)))
+    sig = ["hold %d" % tmax]
+    for _ in range(rng.randint(0, 4)):
+        q = rng.randint(1, nw)
+        sig.append(rng.choice(["intr %d 9 0" % q, "intr %d 9 3" % q, "prio %d %d" % (q, rng.choice([0, 1, 2, 5])), "prio %d %d" % (q, rng.choice([0, 1, 2, 5])),
+                               "ccancel %d" % q, "cremove %d" % q, "stop %d 5" % q, "hold 0"]))
+    if rng.random() < 0.3: sig.append("hold 1")
+    sig += ["setflag 0 1", "setflag 1 %d" % rng.choice([0, 1]), "csig", "hold 1", "setflag 1 1", "csig"]
+    lines.append("proc %d %d 1 : %s" % (nw + 1, rng.choice([0, 0, 7]), " ; ".join(sig[:12])))
+    lines.append("end")
+    return "\n".join(lines)
+
 def gen_soup(rng, pid):
     """everything at once: 3-6 processes, long scripts over the whole instruction set, recording switched on for
     some objects at the start, a condition observing a guard, user events that stop / interrupt / signal"""
@@ -202,6 +229,11 @@ def main():
         rng = random.Random(seed * 15485863 + 11)
         for i in range(count):
             print(gen_condmany(rng, i + 1))
+        return
+    if profile == "condorder":
+        rng = random.Random(seed * 15485863 + 11)
+        for i in range(count):
+            print(gen_condorder(rng, i + 1))
         return
     if profile == "soup":
         rng = random.Random(seed * 32452843 + 3)
